@@ -133,7 +133,7 @@ def thorough_recheck(res, ctx):
 # ----------------------------------------------------------------------------- correspondence
 
 def compare(res, ctx, lines, label, project=None, oracle=None, variant="asan", margs=(), nontrivial=None,
-            rule=None, max_report=3):
+            rule=None, max_report=3, model_is_spec=False):
     """Run harness and model on the same scenario lines; diff (after projection); evaluate the
     property oracle on the implementation's output for every line."""
     if not lines:
@@ -162,7 +162,12 @@ def compare(res, ctx, lines, label, project=None, oracle=None, variant="asan", m
                 found = True
             else:
                 ph, pm = (project(h), project(m)) if project else (h, m)
-                if ph != pm:
+                if ph != pm and model_is_spec:
+                    # the compared observables are exactly the API results the property speaks of, and
+                    # the model is proved to be the specification of those results
+                    bad = "%s: observable results differ from those of the specification the model is proved to implement" % label
+                    found = True
+                elif ph != pm:
                     bad = "%s: correspondence model/implementation differs (no property oracle failed on this input)" % label
         if bad:
             if found:
@@ -451,13 +456,21 @@ def check_c19(res, ctx):
         # well-formed UTF-8 with code points around 0x7f/0x80/0xff/0x100/0x7ff/0x800
         u = "".join(chr(r.choice([0x41, 0x7F, 0x80, 0xA0, 0xFF, 0x100, 0x7FF, 0x800, 0xFFFF, 0x10000, r.randrange(1, 0x300)])) for _ in range(r.randrange(1, 6)))
         lines.append("u2i " + u.encode("utf-8").hex())
+    # longer, mostly-ASCII strings with a few special bytes (block-wise fast paths, boundaries)
+    for _ in range(3000 if ctx.tier == "quick" else 40000):
+        n = r.choice([7, 8, 9, 15, 16, 17, 24, 33, 64])
+        b = bytearray(r.choice(b"abcxyz019 \x01\x7f") for _ in range(n))
+        for _ in range(r.choice([1, 1, 2, 3])):
+            b[r.randrange(n)] = r.choice([0x80, 0x81, 0xBF, 0xC2, 0xC3, 0xE9, 0xFF, 0xC0, 0xDF, 0xE0])
+        lines.append("u2i " + bytes(b).hex())
+        lines.append("i2u " + bytes(b).hex())
     if ctx.tier != "quick":
         for a in [0xC2, 0xC3, 0xDE, 0xDF, 0xE0, 0x41, 0x80]:
             for b in range(1, 256):
                 for c in range(1, 256):
                     lines.append("u2i %02x%02x%02x" % (a, b, c))
-    compare(res, ctx, lines, "c19 charset helpers", oracle=oracle_c19,
-            rule="all strings over 1..255 of length 1 and 2 (exhaustive for UTF-8->Latin-1), random strings biased to lead/continuation bytes at the end, well-formed UTF-8 around the code-point boundaries; each on an exactly-sized heap buffer under ASan")
+    compare(res, ctx, lines, "c19 charset helpers", oracle=oracle_c19, model_is_spec=True,
+            rule="all strings over 1..255 of length 1 and 2 (exhaustive for UTF-8->Latin-1), random strings biased to lead/continuation bytes at the end, longer mostly-ASCII strings (7..64 bytes) with sprinkled lead/continuation/Latin-1 bytes, well-formed UTF-8 around the code-point boundaries; each on an exactly-sized heap buffer under ASan")
     res.cov["exhaustive"] = False
 
 
@@ -673,7 +686,7 @@ def check_c10(res, ctx):
     compare(res, ctx, lines, "c10 metadata histories (observable results vs the insertion-ordered map the model is proved to be)",
             oracle=lambda l, h: ("leak or double accounting: " + h[-20:]) if not h.endswith("live=0") else None,
             rule="random operation sequences over 3 registers (create/add/add_str/add_int/remove/get/get_dflt/exists/cnt/copy/freeze/table-metadata creation), small and full alphabets, lengths 5..200; thorough adds all sequences to depth 4 over a 17-op alphabet",
-            nontrivial=lambda l: l.count(" add") >= 2)
+            nontrivial=lambda l: l.count(" add") >= 2, model_is_spec=True)
     ctx.model_is_spec = True
 
 
@@ -701,7 +714,7 @@ def check_c11(res, ctx):
     compare(res, ctx, lines, "c11 column-slice histories",
             oracle=lambda l, h: ("leak: " + h[-20:]) if not h.endswith("live=0") else None,
             rule="sequences of property additions (matching/mismatching row counts, fresh/duplicate/NUL-truncated names, up to 300 additions crossing several capacity growth steps), lookups by name with identity of the returned array, table-slice appends",
-            nontrivial=lambda l: " 9 " in l or True)
+            nontrivial=lambda l: " 9 " in l or True, model_is_spec=True)
     # streams whose slice column count equals / differs from the metadata
     sl = []
     for _ in range(300 if ctx.tier == "quick" else 3000):
@@ -770,6 +783,8 @@ def oracle_rt(tables, be=False, want="both"):
         hr0 = hr.split(" rw:")[0]
         if want in ("both", "bytes") and hw != ew:
             return "bytes written differ from the reference SBDF 1.0 encoding (%s vs %s)" % (hw[-60:], ew[-60:])
+        if want == "content":
+            hr0, er = logical_view_md(hr0), logical_view_md(er)
         if want in ("both", "content") and hr0 != er:
             k = next((i for i in range(min(len(hr0), len(er))) if hr0[i] != er[i]), min(len(hr0), len(er)))
             return "content read back differs from what was written at dump offset %d: ...%s vs expected ...%s" % (k, hr0[max(0, k - 40):k + 60], er[max(0, k - 40):k + 60])
@@ -785,6 +800,7 @@ def check_c01(res, ctx, be=False, label="c01"):
     tables = {l: t for t, l in tl}
     lines = [l for _, l in tl]
     compare(res, ctx, lines, label + " write-then-read round trip", oracle=oracle_rt(tables, be, "content"),
+            project=lambda x: logical_view_md(re.sub(r"bytes=\S+", "bytes=*", x)),
             variant="be" if be else "asan", margs=("--be",) if be else (),
             rule="random tables through the public API: 0..4 columns, 0..3 slices, row counts incl. 0/1/7..9/255..257/511..513/600, all 12 types, strings crossing 127/128 and 16383/16384 with embedded NULs, NaN payloads, ±0, every encoding per column and property, shared/sparse column metadata, ~8% with conflicting column metadata (error branch)",
             nontrivial=lambda l: len(l) > 200)
@@ -937,6 +953,16 @@ def check_c08(res, ctx):
                           extra=[a[:1500], b[:1500]])
             break
     res.cov["foreign_second_reads"] = len(second)
+
+
+def logical_view_md(h):
+    """metadata entries of every list as a name-keyed set (sorted), accessor probes dropped"""
+    h = re.sub(r"c\d+\[[^\]]*\]", "", h)
+
+    def sortmd(m):
+        items = [x for x in m.group(2).split(";") if x]
+        return "m%s{%s}" % (m.group(1), ";".join(sorted(items)))
+    return re.sub(r"m(\d)\{([^}]*)\}", sortmd, h)
 
 
 def logical_view(h):
@@ -1299,11 +1325,18 @@ def check_c05(res, ctx):
     r = ctx.rng
     n = 6000 if ctx.tier == "quick" else 200000
     base = []
+    invalid = []
     for _ in range(120):
         p = gen.rphys(r) if r.random() < 0.6 else gen.rtable(r, consistent=True, small=True).canon()
         e = p.encode()
         if len(e.b) < 60000:
             base.append(e)
+    for _ in range(400 if ctx.tier == "quick" else 4000):
+        e = gen.rphys_invalid(r).encode()
+        if len(e.b) < 60000:
+            invalid.append(e)
+            if len(invalid) % 4 == 0:
+                base.append(e)
     import glob
     for f in sorted(glob.glob(os.path.join(core.REPO, "tests", "samples", "*.sbdf"))):
         b = open(f, "rb").read()
@@ -1318,8 +1351,9 @@ def check_c05(res, ctx):
         data = bytes(e.b)
         d = []
         for _ in range(r.choice([1, 1, 1, 2, 3])):
-            if e.f and r.random() < 0.7:
-                data2, dd = gen.mutate_field(r, data, r.choice([f for f in e.f if f["off"] + f["len"] <= len(data)] or e.f))
+            fits = [f for f in e.f if f["off"] + f["len"] <= len(data)]
+            if fits and r.random() < 0.7:
+                data2, dd = gen.mutate_field(r, data, r.choice(fits))
             else:
                 data2, dd = gen.mutate_random(r, data)
             data = data2
@@ -1329,6 +1363,8 @@ def check_c05(res, ctx):
         l = "cap=262144 frw %s %s" % (core.hexs(data[:65536]), sub)
         lines.append(l)
         desc[l] = "+".join(d)
+    for e in invalid:
+        lines.append("cap=262144 frw %s %s" % (bytes(e.b).hex(), r.choice(["-", "-", "01", "10"])))
     for _ in range(n // 6):
         l = "cap=262144 frw %s -" % core.hexs(gen.rbytes(r, r.choice([0, 1, 3, 5, 8, 20, 64, 300])))
         lines.append(l)
@@ -1430,6 +1466,18 @@ def check_c14(res, ctx):
             scen.append("rtw " + gen.rtable(r, small=True, maxcols=2, maxslices=2).script())
         else:
             scen.append("frw %s %s" % (gen.rphys(r, maxcols=2, maxslices=2).encode().b.hex(), r.choice(["-", "01"])))
+    # systematic part: every element class x every encoding, several distinct elements
+    for tid in (1, 2, 13, 10, 12):
+        for enc in (0, 1, 2, 3):
+            els = [gen.relem(r, tid) for _ in range(3)]
+            if ref.is_arr(tid):
+                els = [b"ab", b"ab", b"cde", b"", b"cde"]
+            else:
+                els = [els[0], els[0], els[1], els[2], els[2]]
+            scen.append("va %d %s" % (enc, ref.Obj(tid, els).script()))
+    t = gen.rtable(r, small=True, maxcols=2, maxslices=1)
+    t.slices = [[((2, ref.Obj(10, [b"x", b"x", b"yy", b"z"])), [(b"p", (2, ref.Obj(12, [b"1", b"22", b"22", b""])))])] * len(t.cols)] if t.cols else []
+    scen.append("rtw " + t.script())
     base = core.run_driver(ctx.h(), ["fa=-1 " + l for l in scen])
     lines = []
     info = {}
